@@ -20,6 +20,10 @@ def build(tier, seed):
         fams.append(("assign", p, root, None))
     for p, root in gen_shapes.gen_expr(rng, 8000 if thorough else 900):
         fams.append(("expr", p, root, None))
+    for p, root in gen_shapes.forin_cases(rng, 600 if thorough else 120):
+        fams.append(("forin", p, root, None))
+    for p, root in gen_shapes.tabcons_cases(rng, 600 if thorough else 100):
+        fams.append(("tabcons", p, root, None))
     # G-pad: a sample of the above embedded among many locals / constants
     npad = 300 if thorough else 60
     for i in range(npad):
